@@ -48,6 +48,7 @@ def run(R):
     total, bad = R.oracle("trace/OracleAead.tla", files, timeout=3400)
     seen = set()
     for b in bad:
+        b.setdefault("alg", "aegis128l" if b["op"].startswith("aegis") else "?")
         key = (b["op"], b["alg"])
         if key in seen:
             continue
